@@ -245,7 +245,7 @@ def expect_trace(lines, entity, self_ser, arg_sers, where):
         viol('binding reached a different C++ entity', where=where, expected=entity,
              trace=[l.split('\x1e')[0] for l in lines][:4])
         return None
-    ent, slf, args, ret = mine[0].split('\x1e', 3)
+    ent, slf, args, ret = mine[0].split('\x1e')[:4]
     if self_ser is not None and slf != self_ser:
         viol('call dispatched on the wrong receiver', where=where, expected=self_ser, actual=slf)
     want = arg_sers
